@@ -267,7 +267,8 @@ func trunc(s string, n int) string {
 // ---- (b) variants of accepted blocks delivered to a follower before confirmation --------
 
 var c13Variants = []string{"changes-hash", "base-plasma", "total-plasma", "both-plasma", "public-key-other", "public-key-empty", "signature-bitflip",
-	"signature-noncanonical-s", "signature-empty", "amount+1", "data+1", "descendant-added", "hash-altered", "to-address", "nonce", "fused-plasma"}
+	"signature-noncanonical-s", "signature-empty", "amount+1", "data+1", "descendant-added", "hash-altered", "to-address", "nonce", "fused-plasma",
+	"descendant-amount", "descendant-data", "descendant-to", "descendant-unhashed"}
 
 // ed25519 group order L (little endian addition on S)
 var ed25519L, _ = new(big.Int).SetString("7237005577332262213973186563042994240857116359379907606001950938285454250989", 10)
@@ -336,6 +337,34 @@ func makeVariant(c *pbt.C, b *nom.AccountBlock, kind string, keys *sim.KeyRing) 
 		v.Nonce.Data[0] ^= 1
 	case "fused-plasma":
 		v.FusedPlasma++
+	case "descendant-amount", "descendant-data", "descendant-to", "descendant-unhashed":
+		// content of a batched send altered while every recorded hash stays
+		if len(v.DescendantBlocks) == 0 {
+			return nil
+		}
+		d := v.DescendantBlocks[c.Pick("var.desc", len(v.DescendantBlocks))]
+		switch kind {
+		case "descendant-amount":
+			d.Amount = new(big.Int).Add(d.Amount, big.NewInt(1))
+		case "descendant-data":
+			d.Data = append(append([]byte{}, d.Data...), 7)
+		case "descendant-to":
+			d.ToAddress = keys.Users[0].Address
+			if d.ToAddress == b.DescendantBlocks[0].ToAddress {
+				d.ToAddress = keys.Spork.Address
+			}
+		default:
+			switch c.Pick("var.desc.field", 4) {
+			case 0:
+				d.ChangesHash = types.NewHash([]byte("variant-descendant"))
+			case 1:
+				d.BasePlasma, d.TotalPlasma = d.BasePlasma+3, d.TotalPlasma+5
+			case 2:
+				d.PublicKey = append([]byte{}, keys.Users[0].Public...)
+			default:
+				d.Signature = []byte{1, 2, 3}
+			}
+		}
 	}
 	return v
 }
@@ -369,7 +398,10 @@ func TestC13Variants(t *testing.T) {
 			for i := 0; i < steps; i++ {
 				acts[names[c.Pick("act", len(names))]]()
 			}
-			pool := append([]*nom.AccountBlock{}, fresh...)
+			// everything the next momentum will confirm: the fresh user blocks and the contract receives the
+			// pillar generated after the previous momentum
+			pool := h.A.Chain.GetAllUncommittedAccountBlocks()
+			_ = fresh
 			h.A.OnBlock = nil
 			if !h.Produce(0) {
 				return
